@@ -5,7 +5,9 @@ use crate::report::{self, Report, Tier};
 pub mod c01;
 pub mod c02;
 pub mod c03;
+pub mod c04;
 pub mod c06;
+pub mod c07;
 pub mod c08;
 pub mod c09;
 pub mod c11;
@@ -21,7 +23,9 @@ pub fn run(prop: &str, tier: Tier) -> i32 {
         "C01" => c01::run(tier),
         "C02" => c02::run(tier),
         "C03" => c03::run(tier),
+        "C04" => c04::run(tier),
         "C06" => c06::run(tier),
+        "C07" => c07::run(tier),
         "C08" => c08::run(tier),
         "C09" => c09::run(tier),
         "C11" => c11::run(tier),
@@ -49,7 +53,9 @@ pub fn replay(prop: &str, path: &str) -> i32 {
         "C01" => c01::replay(&j),
         "C02" => c02::replay(&j),
         "C03" => c03::replay(&j),
+        "C04" => c04::replay(&j),
         "C06" => c06::replay(&j),
+        "C07" => c07::replay(&j),
         "C08" => c08::replay(&j),
         "C09" => c09::replay(&j),
         "C11" => c11::replay(&j),
